@@ -157,6 +157,27 @@ def device_roundtrips(ctx):
                 rp = dict(device=name, save_mesh=save_mesh, differs=bad[:6], eq=bool(eq))
                 ctx.fail("device-roundtrip", f"device {name} read back differs: {bad[:4]} (==: {eq})", rp)
                 first = first or dict(key="device-roundtrip", what=str(bad[:4]), **rp)
+        # by PATH: what was loaded is self-contained -- the file may be removed or replaced afterwards
+        if dev.mesh is not None:
+            pp = os.path.join(str(ctx.work), f"devpath_{name}.h5")
+            if os.path.exists(pp):
+                os.remove(pp)
+            dev.to_hdf5(pp)
+            back_p = tdgl.Device.from_hdf5(pp)
+            os.remove(pp)
+            other_ = dev.copy(with_mesh=False)
+            other_.make_mesh(max_edge_length=float(dev.layer.coherence_length) * 1.9)
+            other_.to_hdf5(pp)  # the same name now holds another mesh
+            ctx.case(("device-by-path", name), nontrivial=True)
+            ctx.count("devices_loaded_by_path_then_file_replaced")
+            try:
+                bad_p = diff_device(dev, back_p)
+            except Exception as e:  # noqa
+                bad_p = [f"using the loaded device raised {type(e).__name__}: {str(e)[:80]}"]
+            if bad_p:
+                rp = dict(device=name, differs=bad_p[:6])
+                ctx.fail("device-roundtrip:by-path", f"device {name} loaded from a path, the file then replaced: the loaded device differs from the saved one: {bad_p[:3]}", rp)
+                first = first or dict(key="device-roundtrip:by-path", what=str(bad_p[:3]), **rp)
         # behaves identically: a short solve on the reloaded device is bit-identical
         if dev.mesh is not None and dev.terminals and name in ("cross4", "bar"):
             p = os.path.join(str(ctx.work), f"dev_{name}_True.h5")
